@@ -584,6 +584,23 @@ func (cpu *CPU) warnf(msg string, args ...interface{}) {
 	"os"
 """)], note="a chatty library on the real stderr must not block for want of a reader (worker output goes to files)")
 
+# ---- fifth informed review: legitimate variants that alarmed (must stay quiet now) -------------------
+mutant("halt-leaves-the-refresh-counter-unchanged", [], quiet=["C08", "C07", "C10", "C13"], edits=[("op_ctrl.go", """	cpu.PC--
+	cpu.HALT = true
+}""", """	cpu.PC--
+	cpu.HALT = true
+	rc := cpu.IR.Lo
+	cpu.IR.Lo = rc&0x80 | (rc-1)&0x7f
+}""")], note="a parked CPU changes nothing, R included: no statement says how R moves")
+mutant("im2-table-read-before-the-push", [], quiet=["C06", "C05", "C07"], edits=[("cpu.go", """			cpu.SP -= 2
+			cpu.writeU16(cpu.SP, cpu.PC)
+			cpu.PC = cpu.readU16(toU16(vector, cpu.IR.Hi))
+			cpu.IFF1 = false""", """			target := cpu.readU16(toU16(vector, cpu.IR.Hi))
+			cpu.SP -= 2
+			cpu.writeU16(cpu.SP, cpu.PC)
+			cpu.PC = target
+			cpu.IFF1 = false""")], note="differs from push-then-read only when the pushed word lands on the table entry itself")
+
 def run(cmd, **kw):
     return subprocess.run(cmd, stdout=subprocess.PIPE, stderr=subprocess.STDOUT, text=True, **kw)
 
